@@ -321,48 +321,114 @@ def check_merge(s, rng, tmpdir, idx):
 
 
 def check_s3(s, rng, tmpdir, idx):
+    """detect / inspect / merge against the fake bucket: -k, -p, -s (default and
+    non-default suffix), decoys outside the prefix and with the other suffix;
+    the output must be exactly what the library computes from the same keys."""
     f3 = K.ensure_fake_s3()
     pool = gen.text_pool('plain')
     bucket = 'clib'
+    sfx = rng.choice(['.mos.xml', '.mos.xml', '.other', '.xml'])       # suffix of the real documents
+    decoy_sfx = '.other' if sfx != '.other' else '.mos.xml'
+    complete = rng.random() < 0.6
     ro_txt = gen.rand_ro(rng, n_stories=2, pool=pool, message_id=1)
-    docs = [ro_txt, B.msg_doc('roStoryAppend', 5, carried=[gen.simple_story('Z', 1)]), B.msg_doc('roDelete', 9)]
+    docs = [ro_txt, B.msg_doc('roStoryAppend', 5, carried=[gen.simple_story('Z', 1)])]
+    if rng.random() < 0.3:
+        docs.append(B.msg_doc('roStoryDelete', 7, ids=['NOPE']))      # fails in strict mode
+    if complete:
+        docs.append(B.msg_doc('roDelete', 9))
     f3.BUCKETS[bucket] = []
-    keys = []
+    entries = []
     for k, d in enumerate(docs):
-        key = 'p/x/k%d%s' % (k, '.mos.xml' if rng.random() < 0.8 else '.other')
+        entries.append(('p/x/k%d%s' % (k, sfx), d))
+    keys = [k for k, _ in entries]
+    # decoys: same prefix with the other suffix (a second roCreate: listing it would change
+    # every command's outcome), and keys outside the prefix with the right suffix
+    entries.append(('p/x/decoy%s' % decoy_sfx, gen.rand_ro(rng, n_stories=1, pool=pool, message_id=3)))
+    entries.append(('q/p/x/outside%s' % sfx, gen.rand_ro(rng, n_stories=1, pool=pool, message_id=4)))
+    entries.append(('p/y/outside%s' % sfx, B.msg_doc('roDelete', 11)))
+    cmd = rng.choice(['detect', 'inspect', 'merge', 'merge'])
+    junk = cmd != 'merge' and rng.random() < 0.7
+    if junk:
+        entries.append(('p/x/junk%s' % sfx, 'not xml'))
+    rng.shuffle(entries)
+    for key, d in entries:
         f3.put(bucket, key, d)
-        keys.append(key)
-    f3.put(bucket, 'p/x/junk.mos.xml', 'not xml')
     f3.CONFIG['page_size'] = rng.randint(1, 4)
-    cmd = rng.choice(['detect', 'inspect'])
-    use_key = rng.random() < 0.3
+    use_key = cmd != 'merge' and rng.random() < 0.3
+    pass_suffix = sfx != '.mos.xml' or rng.random() < 0.5
+    if sfx == '.xml':
+        pass_suffix = True                  # '.mos.xml' keys would not be there, '.xml' must be asked for
     argv = [cmd, '-b', bucket] + (['-k', keys[0]] if use_key else ['-p', 'p/x/'])
-    if not use_key and rng.random() < 0.5:
-        argv += ['-s', '.mos.xml']
-    rc, out, err = run_cli(argv)
-    want_keys = [keys[0]] if use_key else [k for k, _ in f3.BUCKETS[bucket] if k.startswith('p/x/') and k.endswith('.mos.xml')]
-    lines = out.splitlines()
-    pos = 0
+    if not use_key and pass_suffix:
+        argv += [rng.choice(['-s', '--suffix']), sfx]
+    inc = non_strict = False
+    if cmd == 'merge':
+        inc, non_strict = rng.random() < 0.5, rng.random() < 0.5
+        argv += (['-i'] if inc else []) + (['-n'] if non_strict else [])
+    listed = [k for k, _ in f3.BUCKETS[bucket] if k.startswith('p/x/') and k.endswith(sfx)]
+    want_keys = [keys[0]] if use_key else listed
+    content = dict(f3.BUCKETS[bucket])
     bad = []
-    for key in want_keys:
-        data = dict(f3.BUCKETS[bucket])[key]
+    if cmd == 'merge':
+        import mosromgr.moscollection as mcmod
+        want_text, want_err = None, None
+        EV.STATE['quiet'] = EV.STATE.get('quiet', 0) + 1
         try:
-            mo = s.load(data)
-        except Exception:
-            if key not in err:
-                bad.append(('bad-key-not-marked-on-stderr', key))
-            continue
-        want = '%s: %s' % (key, type(mo).__name__)
-        try:
-            pos = lines.index(want, pos) + 1
-        except ValueError:
-            bad.append(('detect-line-missing-or-out-of-order', want))
+            with W.catch_warnings():
+                W.simplefilter('ignore')
+                try:
+                    mc = mcmod.MosCollection.from_strings([content[k] for k in want_keys], allow_incomplete=inc)
+                    mc.merge(strict=not non_strict)
+                    want_text = str(mc)
+                except Exception as e:
+                    want_err = e
+        finally:
+            EV.STATE['quiet'] -= 1
+        EV.drain()
+        rc, out, err = run_cli(argv)
+        EV.drain()
+        if want_err is None:
+            if rc not in (None, 0):
+                bad.append(('merge-nonzero-status-on-success', rc))
+            if out != want_text + '\n' and out != want_text:
+                bad.append(('merge-stdout-differs-from-library-result', out[:200]))
+        else:
+            if rc != 2:
+                bad.append(('merge-error-status-not-2', rc))
+            if not err.strip():
+                bad.append(('merge-error-without-stderr-message', type(want_err).__name__))
+        s.hist['cli:s3:merge:%s' % ('error' if want_err else 'ok')] += 1
+    else:
+        rc, out, err = run_cli(argv)
+        EV.drain()
+        want_lines = []
+        for key in want_keys:
+            try:
+                mo = s.load(content[key])
+            except Exception:
+                if key not in err:
+                    bad.append(('bad-key-not-marked-on-stderr', key))
+                continue
+            want_lines.append('%s: %s' % (key, type(mo).__name__) + (' (completed)' if mo.completed else ''))
+            if cmd == 'inspect':
+                want_lines += lib_inspect_lines(mo) + ['']
+        if out.splitlines() != want_lines:
+            bad.append(('%s-output-differs-from-library' % cmd, {'got': out.splitlines()[:12], 'want': want_lines[:12]}))
+        if rc not in (None, 0):
+            bad.append(('nonzero-status', rc))
+        for key, _ in f3.BUCKETS[bucket]:
+            if key not in want_keys and key in (out + err):
+                bad.append(('key-outside-the-selection-processed', key))
+    EV.drain()
     s.evaluations += 1
-    s.note_sig(('s3', cmd, use_key, rc, bool(bad)))
+    s.note_sig(('s3', cmd, use_key, sfx, pass_suffix, inc, non_strict, complete, rc, bool(bad)))
     s.hist['cli:s3'] += 1
+    s.hist['cli:s3:%s' % cmd] += 1
+    s.hist['cli:s3:suffix:%s' % (sfx if pass_suffix else 'default')] += 1
     for pk, what in bad[:2]:
-        s.custom_violation('s3-' + pk, {'what': what, 'argv': argv, 'stderr': err[:200]},
-                           {'type': 'cli-s3', 'argv': argv}, msg_kind=cmd, status='s3')
+        s.custom_violation('s3-' + pk, {'what': what, 'argv': argv, 'rc': rc, 'stderr': err[:200]},
+                           {'type': 'cli-s3', 'argv': argv, 'bucket': [(k, b.decode('utf-8', 'replace')) for k, b in f3.BUCKETS[bucket]]},
+                           msg_kind=cmd, status='s3')
 
 
 def subprocess_samples(s, tmpdir, n):
